@@ -7,7 +7,7 @@
  * ssl->cipher; every other record from the active write state.
  * Unit: the real writeRecordHeader, psWriteRecordInfo, psWriteHandshakeHeader
  * (matrixssl/sslEncode.c).  psGetPrngLocked is a stub that logs its arguments
- * and delivers arbitrary bytes (ghost copy kept).
+ * and either delivers arbitrary bytes (ghost copy kept) or fails.
  */
 #include "vf.h"
 #include "matrixssl/matrixsslImpl.h"
@@ -21,6 +21,7 @@ static int g_prng_calls;
 static unsigned char *g_prng_ptr;
 static uint32_t g_prng_len;
 static unsigned char g_prng_bytes[16];
+static int g_prng_fail;
 
 int32_t psGetPrngLocked(unsigned char *bytes, psSize_t size, void *userPtr)
 {
@@ -30,6 +31,12 @@ int32_t psGetPrngLocked(unsigned char *bytes, psSize_t size, void *userPtr)
     g_prng_ptr = bytes;
     g_prng_len = size;
     VF_ASSERT(size <= 16, "c17.cbc_iv_prng_request_at_most_one_block");
+    if (vf_bool())
+    {
+        /* the PRNG may fail (entropy source, lock): nothing is delivered */
+        g_prng_fail = 1;
+        return PS_FAILURE;
+    }
     for (i = 0; i < size && i < 16; i++)
     {
         g_prng_bytes[i] = vf_u8();
@@ -82,6 +89,13 @@ VF_MAIN
     {
         bs = ssl->enBlockSize;
         cbc = bs > 1 && (ssl->flags & SSL_FLAGS_WRITE_SECURE) && !(ssl->flags & SSL_FLAGS_AEAD_W);
+    }
+    if (g_prng_fail)
+    {
+        VF_REACH("prng_failed");
+        /* a record whose IV could not be drawn is never produced (its IV
+           would be whatever the output buffer held before) */
+        VF_ASSERT(rc < 0, "c17.cbc_iv_prng_failure_not_ignored");
     }
     if (rc == PS_SUCCESS)
     {
